@@ -21,13 +21,10 @@ package scion
 
 //@ func (*MetaHdr).SerializeTo
 //@   props C19 C18
-//@   modifies b[:]
+//@   modifies arr(b)
 //@   ensures (result == nil) == (len(b) >= 4)
-//@   ensures result == nil ==> b[0] == m.CurrINF<<6|m.CurrHF&0x3f
-//@   ensures result == nil ==> b[1] == (m.SegLen[0]&0x3f)>>4
-//@   ensures result == nil ==> b[2] == (m.SegLen[0]&0xf)<<4|(m.SegLen[1]&0x3f)>>2
-//@   ensures result == nil ==> b[3] == (m.SegLen[1]&0x3)<<6|m.SegLen[2]&0x3f
-//@   ensures forall i int :: 4 <= i && i < len(b) ==> b[i] == old(b[i])
+//@   ensures result == nil ==> arrUpd(b, 0, m.CurrINF<<6|m.CurrHF&0x3f, (m.SegLen[0]&0x3f)>>4, (m.SegLen[0]&0xf)<<4|(m.SegLen[1]&0x3f)>>2, (m.SegLen[1]&0x3)<<6|m.SegLen[2]&0x3f)
+//@   ensures result != nil ==> arrSame(b)
 
 //@ func (*Base).infIndexForHF
 //@   props C19
@@ -129,31 +126,32 @@ package scion
 //@ func (*Raw).SetInfoField
 //@   props C19 C07 C22
 //@   requires rawInv(s) && idx >= 0
-//@   modifies s.Raw[:]
+//@   modifies arr(s.Raw)
 //@   ensures (result == nil) == (idx < s.NumINF)
-//@   ensures result == nil ==> infoBytes(s.Raw, 4+idx*8, info)
-//@   ensures forall i int :: 0 <= i && i < len(s.Raw) && (result != nil || i < 4+idx*8 || i >= 12+idx*8) ==> s.Raw[i] == old(s.Raw[i])
+//@   ensures result == nil ==> arrUpd(s.Raw, 4+idx*8, ite(info.ConsDir, 1, 0)|ite(info.Peer, 2, 0), 0, uint8(info.SegID>>8), uint8(info.SegID), uint8(info.Timestamp>>24), uint8(info.Timestamp>>16), uint8(info.Timestamp>>8), uint8(info.Timestamp))
+//@   ensures result != nil ==> arrSame(s.Raw)
 
 //@ func (*Raw).SetHopField
 //@   props C19 C07
 //@   requires rawInv(s) && idx >= 0
-//@   modifies s.Raw[:]
+//@   modifies arr(s.Raw)
 //@   ensures (result == nil) == (idx < s.NumHops)
-//@   ensures result == nil ==> hopBytes(s.Raw, 4+s.NumINF*8+idx*12, hop)
-//@   ensures forall i int :: 0 <= i && i < len(s.Raw) && (result != nil || i < 4+s.NumINF*8+idx*12 || i >= 16+s.NumINF*8+idx*12) ==> s.Raw[i] == old(s.Raw[i])
+//@   ensures result == nil ==> arrUpd(s.Raw, 4+s.NumINF*8+idx*12, ite(hop.EgressRouterAlert, 1, 0)|ite(hop.IngressRouterAlert, 2, 0), hop.ExpTime, uint8(hop.ConsIngress>>8), uint8(hop.ConsIngress), uint8(hop.ConsEgress>>8), uint8(hop.ConsEgress), hop.Mac[0], hop.Mac[1], hop.Mac[2], hop.Mac[3], hop.Mac[4], hop.Mac[5])
+//@   ensures result != nil ==> arrSame(s.Raw)
 
 //@ func (*Raw).IncPath
 //@   props C19 C07
 //@   let l0 = s.PathMeta.SegLen[0]
 //@   let l1 = s.PathMeta.SegLen[1]
+//@   let l2 = s.PathMeta.SegLen[2]
 //@   let hf = s.PathMeta.CurrHF
 //@   requires rawInv(s)
-//@   modifies s.PathMeta, s.Raw[:]
+//@   modifies s.PathMeta, arr(s.Raw)
 //@   ensures (result == nil) == (int(hf)+1 < s.NumHops)
-//@   ensures result == nil ==> s.PathMeta.CurrHF == hf+1 && s.PathMeta.CurrINF == segOf(hf+1, l0, l1) && metaBytes(s.Raw, s.PathMeta)
+//@   ensures result == nil ==> s.PathMeta.CurrHF == hf+1 && s.PathMeta.CurrINF == segOf(hf+1, l0, l1)
+//@   ensures result == nil ==> arrUpd(s.Raw, 0, s.PathMeta.CurrINF<<6|s.PathMeta.CurrHF&0x3f, (l0&0x3f)>>4, (l0&0xf)<<4|(l1&0x3f)>>2, (l1&0x3)<<6|l2&0x3f)
+//@   ensures result != nil ==> arrSame(s.Raw)
 //@   ensures s.PathMeta.SegLen == old(s.PathMeta.SegLen)
-//@   ensures forall i int :: 4 <= i && i < len(s.Raw) ==> s.Raw[i] == old(s.Raw[i])
-//@   ensures result != nil ==> forall i int :: 0 <= i && i < len(s.Raw) ==> s.Raw[i] == old(s.Raw[i])
 
 //@ func (*Raw).IsFirstHop
 //@   props C19
